@@ -1,5 +1,5 @@
-use vkit::Check;
+mod c45;
+use vkit::{Check, Level};
 fn main() {
-    let checks: &[Check] = &[];
-    vkit::main(checks);
+    vkit::main(&[Check { id: "C45", level: Level::Exploration, run: c45::run }]);
 }
